@@ -80,6 +80,8 @@ class _State:
         s = explorer.solver
         s.reset()
         s.set("timeout", explorer.timeout_ms)
+        if explorer.rlimit:
+            s.set("rlimit", explorer.rlimit)     # z3's nonlinear engines do not always honour the timeout
         for c in explorer.pre:
             s.add(c)
 
@@ -219,7 +221,8 @@ def realise(term, what="int") -> int:
 
 
 class Explorer:
-    def __init__(self, pre=(), max_paths=512, timeout_ms=10000, ctx=None):
+    def __init__(self, pre=(), max_paths=512, timeout_ms=10000, ctx=None, rlimit=0):
+        self.rlimit = rlimit
         self.pre = list(pre)
         self.max_paths = max_paths
         self.timeout_ms = timeout_ms
@@ -319,7 +322,8 @@ def explore(fn, pre=(), max_paths=512, timeout_ms=10000):
 class Query:
     """Validity queries `pc => goal` with accounting; returns (verdict, model)."""
 
-    def __init__(self, timeout_ms=10000):
+    def __init__(self, timeout_ms=10000, rlimit=0):
+        self.rlimit = rlimit
         self.timeout_ms = timeout_ms
         self.stats = Stats()
         self.smt_samples: list[str] = []
@@ -329,6 +333,8 @@ class Query:
         ('sat', model) with a counterexample, or ('unknown', None)."""
         s = z3.Solver()
         s.set("timeout", self.timeout_ms)
+        if self.rlimit:
+            s.set("rlimit", self.rlimit)
         for c in pc:
             s.add(c)
         for c in extra:
